@@ -1,9 +1,81 @@
 /-
 C09, property theorems about the TRANSLATED cryptobyte-based decoders (part CH; see DESIGN.md 12.4).
 Same namespace as Props/C09.lean; listed in checks/C09.json under extra_props_files.
+
+`clientHelloMsg.unmarshal` of both stacks, as translated statement by statement from the Go source on every run
+(`Gotlcp.Src.tlcp.codec` / `Gotlcp.Src.dtlcp.codec`): for EVERY receiver and EVERY byte string the result is
+`.ok _`, never `.error` — no index / slice / `make` panic, and none of the seven `for !s.Empty() { … }` loops
+(cipher suites, extensions, server names, trusted authorities, curves, signature algorithms, ALPN protocols; each
+translated as at most `len(data)+1` iterations followed by `throw "loop fuel exhausted"`) runs out of fuel: every
+iteration takes at least one byte off its String (`StepOK`), so the decoder cannot spin.  No hypothesis on the
+length of `data` is needed.  Proofs: Gotlcp.Tie.CodecCHTlcp / CodecCHDtlcp (`tie_clientHello`: the result is what
+the specification `chSpecT` / `chSpecD` says; the loop rule is `Gotlcp.Tie.CodecCH.loop_rule`).
 -/
-import Gotlcp.Tie.CbString
+import Gotlcp.Tie.CodecCHTlcp
+import Gotlcp.Tie.CodecCHDtlcp
 
 namespace Gotlcp.Props.C09
+open Gotlcp
+open Gotlcp.Tie.CodecCH
+
+/-- tlcp `clientHelloMsg.unmarshal` never panics and never exhausts a loop bound -/
+theorem C09_src_no_panic_clientHelloMsg_unmarshal_tlcp (m : Src.tlcp.codec.clientHelloMsg) (data : List (BitVec 8)) :
+    ∃ r, Src.tlcp.codec.clientHelloMsg.unmarshal m data = .ok r :=
+  (Gotlcp.Tie.CodecCHTlcp.tie_clientHello m data).noError
+
+/-- dtlcp `clientHelloMsg.unmarshal` (behind `dtlcpIsCompleteMessage` and `dtlcpUnmarshalHeader`) likewise -/
+theorem C09_src_no_panic_clientHelloMsg_unmarshal_dtlcp (m : Src.dtlcp.codec.clientHelloMsg) (data : List (BitVec 8)) :
+    ∃ r, Src.dtlcp.codec.clientHelloMsg.unmarshal m data = .ok r :=
+  (Gotlcp.Tie.CodecCHDtlcp.tie_clientHello m data).noError
+
+/-- the stronger form: the answer is exactly the specification's — `(m', true)` with the specified fields or
+`(_, false)` — so in particular the Boolean is never wrong because of a silently exhausted loop -/
+theorem C09_src_no_panic_clientHello_result_tlcp (m : Src.tlcp.codec.clientHelloMsg) (data : List (BitVec 8)) :
+    Res Gotlcp.Tie.CodecCHTlcp.viewT (Src.tlcp.codec.clientHelloMsg.unmarshal m data) (chSpecT data) :=
+  Gotlcp.Tie.CodecCHTlcp.tie_clientHello m data
+
+theorem C09_src_no_panic_clientHello_result_dtlcp (m : Src.dtlcp.codec.clientHelloMsg) (data : List (BitVec 8)) :
+    Res Gotlcp.Tie.CodecCHDtlcp.viewD (Src.dtlcp.codec.clientHelloMsg.unmarshal m data)
+      (Gotlcp.Tie.CodecCHDtlcp.chSpecD data) :=
+  Gotlcp.Tie.CodecCHDtlcp.tie_clientHello m data
+
+/-- a specification step never lengthens the String (the fact behind "fuel `len(data)+1` suffices"), for the
+outermost loop; the inner loops are `sniStep_dec`, `taStep_dec`, `alpnStep_dec`, `u16Step_dec` -/
+theorem C09_src_no_panic_clientHello_ext_step_consumes (reset : Bool) (n : Nat) (v v' : CHv) (s s' : List (BitVec 8))
+    (h : extStepS reset n v s = some (v', s')) : s'.length + 4 ≤ s.length := by
+  unfold extStepS at h
+  cases h1 : rdU16 s with
+  | none => simp [h1] at h
+  | some p =>
+    obtain ⟨ty, s1⟩ := p
+    simp only [h1] at h
+    cases h2 : rdVec 2 s1 with
+    | none => simp [h2] at h
+    | some q =>
+      obtain ⟨d, s2⟩ := q
+      simp only [h2] at h
+      have l1 := rdU16_len h1
+      have l2 := rdVec_len h2
+      cases h3 : extCaseS reset n v ty d with
+      | none => simp [h3] at h
+      | some w =>
+        simp only [h3] at h
+        split at h
+        · simp only [Option.some.injEq, Prod.mk.injEq] at h
+          rw [← h.2]; omega
+        · cases h
+
+/-- not vacuous: a ClientHello with three extensions goes through all of it (accepted), and a hello whose
+extension block is cut short is refused, not an error -/
+example : (match Src.tlcp.codec.clientHelloMsg.unmarshal {}
+    ([1, 0, 0, 72, 1, 1] ++ List.replicate 32 7 ++ [0, 0, 2, 0xe0, 0x53, 1, 0] ++
+      [0, 29, 0, 0, 0, 6, 0, 4, 0, 0, 1, 0x61, 0, 10, 0, 6, 0, 4, 0, 41, 0, 23, 0, 16, 0, 5, 0, 3, 2, 0x68, 0x32]) with
+    | .ok (m, true) => m.serverName == [0x61] && m.alpnProtocols == [[0x68, 0x32]]
+    | _ => false) = true := by decide
+example : (match Src.tlcp.codec.clientHelloMsg.unmarshal {}
+    ([1, 0, 0, 52, 1, 1] ++ List.replicate 32 7 ++ [0, 0, 2, 0xe0, 0x53, 1, 0] ++
+      [0, 29, 0, 0, 0, 6, 0, 4, 0, 0, 1, 0x61, 0, 10, 0]) with
+    | .ok (_, false) => true
+    | _ => false) = true := by decide
 
 end Gotlcp.Props.C09
